@@ -120,6 +120,7 @@ def _from_json_to_shapes(indict, parameters=None) -> Tuple[List[Shape], Dict[sym
         all_variable_symbols_.update(shape.get_state_variables(derivative_symbol=Config().differential_order_symbol))
         all_parameter_symbols.update(set(shape.reconstitute_expr().free_symbols))
     all_parameter_symbols -= all_variable_symbols_
+    all_parameter_symbols.discard(sympy.Symbol(Config().input_time_symbol))   # the time variable is not a constant parameter
     del all_variable_symbols_
     assert all([_is_sympy_type(sym) for sym in all_variable_symbols])
     logging.info("All known variables: " + str(all_variable_symbols) + ", all parameters used in ODEs: " + str(all_parameter_symbols))
